@@ -322,3 +322,36 @@ M("c19-gowin-period-inverted", ["C19"], "amaranth/vendor/_gowin.py",
   '-period {{1000000000/frequency}} [get_nets', '-period {{frequency/1000000000}} [get_nets', "R-19d")
 M("c19-bits-metadata-shifted", ["C19"], "amaranth/build/plat.py",
   '                    yield f"{name}[{bit}]", meta.name, meta.attrs', '                    yield f"{name}[{bit + 1}]", meta.name, meta.attrs', "R-19c")
+
+# ------------------------------------------------------------------------------------------------ C12 / C13 / C17
+FIFO = "amaranth/lib/fifo.py"
+CDC = "amaranth/lib/cdc.py"
+M("c12-wport-en-ungated", ["C12"], FIFO, '            w_port.en.eq(self.w_en & self.w_rdy),', '            w_port.en.eq(self.w_en),', "R-12a")
+M("c12-buffered-wport-en-ungated", ["C12"], FIFO, '            w_port.en.eq(do_write),\n        ]\n        with m.If(do_write):\n            m.d.sync += produce.eq(_incr(produce, inner_depth))',
+  '            w_port.en.eq(self.w_en),\n        ]\n        with m.If(do_write):\n            m.d.sync += produce.eq(_incr(produce, inner_depth))', "R-12a")
+M("c12-do-write-ungated", ["C12"], FIFO, '        do_read  = self.r_rdy & self.r_en\n        do_write = self.w_rdy & self.w_en\n',
+  '        do_read  = self.r_rdy & self.r_en\n        do_write = self.w_en\n', "R-12a")
+M("c12-level-range", ["C12"], FIFO, '        self.level = Signal(range(depth + 1))', '        self.level = Signal(range(depth))', "R-12b", count=2)
+M("c12-level-dec-guard", ["C12"], FIFO, '        with m.If(do_read & ~do_write):\n            m.d.sync += self.level.eq(self.level - 1)',
+  '        with m.If(do_read & ~self.w_en):\n            m.d.sync += self.level.eq(self.level - 1)', "R-12c")
+M("c12-wrdy-off-by-one", ["C12"], FIFO, '            self.w_rdy.eq(self.level != self.depth),', '            self.w_rdy.eq(self.level != self.depth - 1),', "R-12d")
+M("c12-pointer-modulus", ["C12"], FIFO, 'm.d.sync += consume.eq(_incr(consume, self.depth))', 'm.d.sync += consume.eq(_incr(consume, self.depth + 1))', "R-12b")
+M("c12-buffered-level", ["C12"], FIFO, '            self.level.eq(inner_level + self.r_rdy),', '            self.level.eq(inner_level),', "R-12c")
+M("c13-wfull-index-unguarded", ["C13"], FIFO,
+  '        if self._ctr_bits == 1:\n            # A queue of depth 1 has one-bit counters; it is full whenever they differ.\n            m.d.comb += w_full.eq(produce_w_gry != consume_w_gry)\n        else:\n            m.d.comb += w_full.eq(',
+  '        if True:\n            m.d.comb += w_full.eq(', "R-13c")
+M("c13-produce-in-read-domain", ["C13"], FIFO, 'm.d[self._w_domain] += produce_w_bin.eq(produce_w_nxt)', 'm.d[self._r_domain] += produce_w_bin.eq(produce_w_nxt)', "R-13b")
+M("c13-cdc-wrong-domain", ["C13"], FIFO, 'FFSynchronizer(produce_w_gry, produce_r_gry, o_domain=self._r_domain)', 'FFSynchronizer(produce_w_gry, produce_r_gry, o_domain=self._w_domain)', "R-13b")
+M("c13-binary-crosses", ["C13"], FIFO, 'm.d[self._w_domain] += produce_w_gry.eq(_gray_encode(produce_w_nxt))', 'm.d[self._w_domain] += produce_w_gry.eq(produce_w_nxt)', "R-13b")
+M("c13-do-read-ungated", ["C13"], FIFO, '        do_write = self.w_rdy & self.w_en\n        do_read  = self.r_rdy & self.r_en\n\n        # TODO: extract',
+  '        do_write = self.w_rdy & self.w_en\n        do_read  = self.r_en\n\n        # TODO: extract', "R-13a")
+M("c13-ctr-bits", ["C13"], FIFO, '        self._ctr_bits = depth_bits + 1', '        self._ctr_bits = depth_bits', ["R-13d", "R-13c"])
+M("c17-ff-sync-domain", ["C17"], CDC, '            m.d[self._o_domain] += o.eq(i)\n        m.d.comb += self.o.eq(flops[-1])', '            m.d.sync += o.eq(i)\n        m.d.comb += self.o.eq(flops[-1])', "R-17a")
+M("c17-ff-sync-stages", ["C17"], CDC, '                 for index in range(self._stages)]\n        for i, o in zip((self.i, *flops), flops):',
+  '                 for index in range(self._stages - 1)]\n        for i, o in zip((self.i, *flops), flops):', "R-17a")
+M("c17-ff-sync-output-first", ["C17"], CDC, '            m.d[self._o_domain] += o.eq(i)\n        m.d.comb += self.o.eq(flops[-1])', '            m.d[self._o_domain] += o.eq(i)\n        m.d.comb += self.o.eq(flops[0])', "R-17a")
+M("c17-async-no-posedge-req", ["C17"], CDC, '        m.submodules += RequirePosedge(self._o_domain)\n', '', "R-17b")
+M("c17-async-init-zero", ["C17"], CDC, 'flops = [Signal(1, name=f"stage{index}", init=1)', 'flops = [Signal(1, name=f"stage{index}", init=0)', "R-17b")
+M("c17-async-neg-not-inverted", ["C17"], CDC, '            m.d.comb += ResetSignal("async_ff").eq(~self.i)', '            m.d.comb += ResetSignal("async_ff").eq(self.i)', "R-17b")
+M("c17-pulse-toggle-domain", ["C17"], CDC, 'm.d[self._i_domain] += i_toggle.eq(i_toggle ^ self.i)', 'm.d[self._o_domain] += i_toggle.eq(i_toggle ^ self.i)', "R-17c")
+M("c17-pulse-stages-dropped", ["C17"], CDC, 'FFSynchronizer(i_toggle, o_toggle, o_domain=self._o_domain, stages=self._stages)', 'FFSynchronizer(i_toggle, o_toggle, o_domain=self._o_domain)', "R-17c")
